@@ -1,11 +1,204 @@
 import Tmcg.Driver
+import Tmcg.Model.Rabin
 /-
-  Line-protocol handlers kept in a separate file so that they can be developed independently of
-  Tmcg/Driver.lean.
+  Line-protocol handlers of area "rabin" (property C10); the line formats are listed at the top of
+  harness/drv_rabin.cc.
 -/
 namespace Tmcg.DriverRabin
-open Tmcg Tmcg.Driver
+open Tmcg Tmcg.Driver Tmcg.Rabin
 
-def handlers : List (String × Handler) := []
+/-! ### texts, bytes, oracle log -/
+
+def textOfBytes (b : Bytes) : Text := b.map Char.ofNat
+def pText (s : String) : Option Text := (pHex s).map textOfBytes
+def hexText (t : Text) : String := hexOfBytes (bytesOf t)
+
+def fnv64 (b : Bytes) : UInt64 :=
+  b.foldl (fun h x => (h ^^^ UInt64.ofNat x) * 1099511628211) 14695981039346656037
+
+def hex16 (n : Nat) : String :=
+  String.ofList ((List.range 16).map fun i => Sigma.hexDigit (n / 16 ^ (15 - i) % 16))
+
+/-- the key of a query in the oracle log: hex text, or `#len.fnv1a64` above 96 bytes -/
+def oKey (b : Bytes) : String :=
+  if b.length ≤ 96 then hexOfBytes b else s!"#{b.length}.{hex16 (fnv64 b).toNat}"
+
+/-- `[h:<key>:<hex>,g:<osize>:<key>:<hex>,…]` as an association list from `h:<key>` / `g:<osize>:<key>` -/
+def pOLog (s : String) : Option (List (String × Bytes)) := do
+  let l ← pList s
+  l.mapM fun e => match e.splitOn ":" with
+    | ["h", k, a] => do let a ← pHex a; some ("h:" ++ k, a)
+    | ["g", n, k, a] => do let a ← pHex a; some ("g:" ++ n ++ ":" ++ k, a)
+    | _ => none
+
+def mkOracles (log : List (String × Bytes)) (d : Nat) : Oracles where
+  h := fun x => (log.lookup ("h:" ++ oKey x)).getD (List.replicate mdsize d)
+  g := fun x n => (log.lookup (s!"g:{n}:" ++ oKey x)).getD (List.replicate n d)
+
+/-- replay with two different defaults for unknown queries -/
+def withO (log : List (String × Bytes)) (f : Oracles → String) : String :=
+  let a := f (mkOracles log 0xAA)
+  let b := f (mkOracles log 0x55)
+  if a = b then a else "oracle-mismatch"
+
+def showRoots (r : Int × Int × Int × Int) : String := s!"[{r.1},{r.2.1},{r.2.2.1},{r.2.2.2}]"
+
+/-! ### square roots -/
+
+def hSqrtmp : Handler
+  | [a, p, draws] => do
+    let a ← pInt a; let p ← pInt p; let draws ← pNatList draws
+    some (match sqrtmpR a p draws with
+      | .ok (r, rest) => s!"{r} {draws.length - rest.length}"
+      | .error e => toString e)
+  | _ => none
+
+def hSqrtmpDet : Handler
+  | [a, p] => do let a ← pInt a; let p ← pInt p; some (showE (sqrtmp a p))
+  | _ => none
+
+def hQrmn : Handler
+  | [a, p, q] => do let a ← pInt a; let p ← pInt p; let q ← pInt q; some (showBool (qrmn a p q))
+  | _ => none
+
+def hSqrtmnR : Handler
+  | [a, p, q, n, draws] => do
+    let a ← pInt a; let p ← pInt p; let q ← pInt q; let n ← pInt n; let draws ← pNatList draws
+    some (match sqrtmnR a p q n draws with
+      | .ok (r, rest) => s!"{r} {draws.length - rest.length}"
+      | .error e => toString e)
+  | _ => none
+
+def hSqrtmnDet : Handler
+  | [a, p, q, n] => do
+    let a ← pInt a; let p ← pInt p; let q ← pInt q; let n ← pInt n
+    some (showE (sqrtmn a p q n))
+  | _ => none
+
+def hSqrtmnFast : Handler
+  | [a, p, q, n, up, vq, pa, qa] => do
+    let a ← pInt a; let p ← pInt p; let q ← pInt q; let n ← pInt n
+    let up ← pInt up; let vq ← pInt vq; let pa ← pInt pa; let qa ← pInt qa
+    some (showE (sqrtmnFast a p q n up vq pa qa))
+  | _ => none
+
+def hSqrtmnFastAll : Handler
+  | [a, p, q, n, up, vq, pa, qa] => do
+    let a ← pInt a; let p ← pInt p; let q ← pInt q; let n ← pInt n
+    let up ← pInt up; let vq ← pInt vq; let pa ← pInt pa; let qa ← pInt qa
+    some (match sqrtmnFastAll a p q n up vq pa qa with
+      | .ok r => showRoots r
+      | .error e => toString e)
+  | _ => none
+
+def mkSec (m y p q : Int) (sig : Text) : SecKey := ⟨[], [], [], m, y, p, q, [], sig⟩
+
+def hPrecompute : Handler
+  | [m, y, p, q] => do
+    let m ← pInt m; let y ← pInt y; let p ← pInt p; let q ← pInt q
+    some (match precompute (mkSec m y p q []) with
+      | none => "reject"
+      | some P => s!"{P.y1} {P.m1pq} {P.up} {P.vq} {P.pa1d4} {P.qa1d4}")
+  | _ => none
+
+/-! ### key identifiers and key texts -/
+
+def hSelfid : Handler
+  | [s] => do let s ← pText s; some (hexText (selfid s))
+  | _ => none
+def hKeyid : Handler
+  | [s, n] => do let s ← pText s; let n ← pNat n; some (hexText (keyid s n))
+  | _ => none
+def hKeyidSize : Handler
+  | [s] => do let s ← pText s; some (toString (keyidSize s))
+  | _ => none
+def hSigid : Handler
+  | [s] => do let s ← pText s; some (hexText (sigid s))
+  | _ => none
+
+def hImportPub : Handler
+  | [t] => do
+    let t ← pText t
+    some (match importPub t with
+      | none => "reject"
+      | some K => s!"{K.m} {K.y} {oKey (bytesOf (pubText K))}")
+  | _ => none
+
+def hImportSec : Handler
+  | [t] => do
+    let t ← pText t
+    some (match importSec t with
+      | none => "reject"
+      | some K =>
+        match precompute K with
+        | none => "reject"
+        | some _ => s!"{K.m} {K.y} {K.p} {K.q} {oKey (bytesOf (secText K))}")
+  | _ => none
+
+/-! ### signatures and encryption -/
+
+/-- a secret key given by `m p q ownsig` (y plays no role in sign/decrypt); the pre-computed values
+    are the model's own, with `y = 1` standing in for the unused `y1` -/
+def withKey (m p q : Int) (sig : Text) (f : SecKey → Pre → String) : String :=
+  let K := mkSec m 1 p q sig
+  match precompute K with
+  | none => "precompute-failed"
+  | some P => f K P
+
+def hSign : Handler
+  | [m, p, q, sig, data, rs, ws, log] => do
+    let m ← pInt m; let p ← pInt p; let q ← pInt q; let sig ← pText sig; let data ← pHex data
+    let rs ← pList rs; let rs ← rs.mapM pHex; let ws ← pNatList ws; let log ← pOLog log
+    some (withO log fun O => withKey m p q sig fun K P =>
+      match Rng.randomMod 4 ws with
+      | .ok (some (idx, _)) =>
+        (match sign O K P data rs idx with
+          | .ok t => hexText t
+          | .error e => toString e)
+      | .ok none => "exhausted"
+      | .error e => toString e)
+  | _ => none
+
+def hVerify : Handler
+  | [m, sig, data, s, log] => do
+    let m ← pInt m; let sig ← pText sig; let data ← pHex data; let s ← pText s; let log ← pOLog log
+    some (withO log fun O => showBool (verify O m sig data s))
+  | _ => none
+
+def hEncrypt : Handler
+  | [m, sig, value, r, log] => do
+    let m ← pInt m; let sig ← pText sig; let value ← pHex value; let r ← pHex r; let log ← pOLog log
+    some (withO log fun O => match encrypt O m sig value r with
+      | .ok t => hexText t
+      | .error e => toString e)
+  | _ => none
+
+def hDecrypt : Handler
+  | [m, p, q, sig, t, log] => do
+    let m ← pInt m; let p ← pInt p; let q ← pInt q; let sig ← pText sig; let t ← pText t; let log ← pOLog log
+    some (withO log fun O => withKey m p q sig fun K P =>
+      match decrypt O K P t with
+      | some v => hexOfBytes v
+      | none => "reject")
+  | _ => none
+
+def hCheck : Handler
+  | [t, pp, fuel, log] => do
+    let t ← pText t; let pp ← pNat pp; let fuel ← pNat fuel; let log ← pOLog log
+    some (match importPub t with
+      | none => "reject"
+      | some K => withO log fun O => showEB (check O (fun _ => pp = 1) K fuel))
+  | _ => none
+
+def handlers : List (String × Handler) := [
+  ("rabin.sqrtmp", hSqrtmp), ("rabin.sqrtmp.det", hSqrtmpDet), ("rabin.qrmn", hQrmn),
+  ("rabin.sqrtmn.r", hSqrtmnR), ("rabin.sqrtmn.det", hSqrtmnDet),
+  ("rabin.sqrtmn.fast", hSqrtmnFast), ("rabin.sqrtmn.fastall", hSqrtmnFastAll),
+  ("rabin.precompute", hPrecompute),
+  ("rabin.selfid", hSelfid), ("rabin.keyid", hKeyid), ("rabin.keyidsize", hKeyidSize), ("rabin.sigid", hSigid),
+  ("rabin.import.pub", hImportPub), ("rabin.import.sec", hImportSec),
+  ("rabin.sign", hSign), ("rabin.verify", hVerify), ("rabin.encrypt", hEncrypt), ("rabin.decrypt", hDecrypt),
+  ("rabin.check", hCheck)
+]
 
 end Tmcg.DriverRabin
